@@ -358,6 +358,11 @@ def tacticBlank (f : ListFormatting) (e : IterEnv) (item : ListItem) (rendered :
       if e.last && f.endsWithNewline then f.trailingSeparator != .never else separate
     (ps, separate, trailingSeparator, lineLen + totalWidth)
 
+/-- lists.rs:376-386: `keep_comment`. -/
+def keepPreComment (f : ListFormatting) (e : IterEnv) (item : ListItem) : Bool :=
+  if f.normalizeComments || item.preCommentStyle == .differentLine then false
+  else totalItemWidth item + e.itemSepLen + 1 ≤ f.shape.width
+
 /-- lists.rs:364-400: the pre-comment and the blank after it.  Returns the pushed pieces, the new
 `line_len` and whether `item_max_width` is reset. -/
 def preCommentPieces (f : ListFormatting) (rc : Rc) (e : IterEnv) (item : ListItem) (lineLen : Nat) :
@@ -371,10 +376,7 @@ def preCommentPieces (f : ListFormatting) (rc : Rc) (e : IterEnv) (item : ListIt
     | some c =>
       if !e.innerItem.isEmpty then
         if f.tactic != .horizontal then
-          let keepComment :=
-            if f.normalizeComments || item.preCommentStyle == .differentLine then false
-            else totalItemWidth item + e.itemSepLen + 1 ≤ f.shape.width
-          if keepComment then some ([⟨.pre, c⟩, bl [' ']], lineLen, true)
+          if keepPreComment f e item then some ([⟨.pre, c⟩, bl [' ']], lineLen, true)
           else
             some ([⟨.pre, c⟩, bl ['\n'], bl e.indentStr],
               (match item.item with | some s => strWidth s | none => 0), true)
@@ -422,6 +424,31 @@ def rewritePostComment (f : ListFormatting) (rc : Rc) (e : IterEnv) (itemsFromI 
     else hasNewline (trim comment) || strWidth (trim comment) > width
   (itemMaxWidth, rc (trimStart comment) blockStyle commentShape)
 
+/-- lists.rs:470-487: `if formatting.align_comments { … }`.  Returns the alignment blanks, the new
+`item_max_width` and the (possibly re-rewritten) comment. -/
+def alignPostComment (f : ListFormatting) (rc : Rc) (e : IterEnv) (itemsFromI : List ListItem)
+    (comment : List Char) (overhead : Nat) (rendered : List Char) (itemMaxWidth : Option Nat)
+    (formattedComment : List Char) : Option (List Piece × Option Nat × List Char) :=
+  if f.alignComments then
+    let commentAlignment := postCommentAlignment itemMaxWidth (strWidth e.innerItem)
+    if firstLineWidth formattedComment + lastLineWidth rendered + commentAlignment + 1 >
+        f.config.max_width then
+      match rewritePostComment f rc e itemsFromI comment overhead none with
+      | (_, none) => none
+      | (itemMaxWidth, some formattedComment) =>
+        let commentAlignment := postCommentAlignment itemMaxWidth (strWidth e.innerItem)
+        some ([bl (List.replicate (commentAlignment + 1) ' ')], itemMaxWidth, formattedComment)
+    else
+      some ([bl (List.replicate (commentAlignment + 1) ' ')], itemMaxWidth, formattedComment)
+  else some ([], itemMaxWidth, formattedComment)
+
+/-- lists.rs:488-497: the additional space. -/
+def extraSpace (f : ListFormatting) (e : IterEnv) (separate : Bool) (itemMaxWidth : Option Nat) :
+    List Piece :=
+  if !f.alignComments ||
+      (e.last && itemMaxWidth.isSome && !separate && !f.separator.isEmpty) then [bl [' ']]
+  else []
+
 /-- lists.rs:426-508: post-comment outside horizontal mode.  `rendered` is `result` at this point.
 Returns the pushed pieces and the new `item_max_width`. -/
 def verticalPostPieces (f : ListFormatting) (rc : Rc) (e : IterEnv) (item : ListItem)
@@ -435,27 +462,11 @@ def verticalPostPieces (f : ListFormatting) (rc : Rc) (e : IterEnv) (item : List
       | (_, none) => none
       | (itemMaxWidth, some formattedComment) =>
         if !startsWithNewline comment then
-          -- `if formatting.align_comments { … }`
-          let r : Option (List Piece × Option Nat × List Char) :=
-            if f.alignComments then
-              let commentAlignment := postCommentAlignment itemMaxWidth (strWidth e.innerItem)
-              if firstLineWidth formattedComment + lastLineWidth rendered + commentAlignment + 1 >
-                  f.config.max_width then
-                match rewritePostComment f rc e itemsFromI comment overhead none with
-                | (_, none) => none
-                | (itemMaxWidth, some formattedComment) =>
-                  let commentAlignment := postCommentAlignment itemMaxWidth (strWidth e.innerItem)
-                  some ([bl (List.replicate (commentAlignment + 1) ' ')], itemMaxWidth, formattedComment)
-              else
-                some ([bl (List.replicate (commentAlignment + 1) ' ')], itemMaxWidth, formattedComment)
-            else some ([], itemMaxWidth, formattedComment)
-          match r with
+          match alignPostComment f rc e itemsFromI comment overhead rendered itemMaxWidth
+              formattedComment with
           | none => none
           | some (ps, itemMaxWidth, formattedComment) =>
-            let extra :=
-              if !f.alignComments ||
-                  (e.last && itemMaxWidth.isSome && !separate && !f.separator.isEmpty) then [bl [' ']]
-              else []
+            let extra := extraSpace f e separate itemMaxWidth
             let itemMaxWidth := if hasNewline formattedComment then none else itemMaxWidth
             some (ps ++ extra ++ [⟨.post, formattedComment⟩], itemMaxWidth)
         else
@@ -468,6 +479,52 @@ def verticalPostPieces (f : ListFormatting) (rc : Rc) (e : IterEnv) (item : List
 def preserveNewlinePieces (f : ListFormatting) (e : IterEnv) (item : ListItem) : List Piece :=
   if f.preserveNewline && !e.last && f.tactic == .vertical && item.newLines then [bl ['\n']] else []
 
+/-- lists.rs:291-294: the initial value of `separate`. -/
+def separate0 (sepPlace : SeparatorPlace) (i : Nat) (last trailingSeparator : Bool) : Bool :=
+  match sepPlace with
+  | .front => !(i == 0)
+  | .back => !last || trailingSeparator
+
+/-- lists.rs:287-307: what the iteration computes before it decides to write anything. -/
+def mkEnv (f : ListFormatting) (indentStr : List Char) (sepPlace : SeparatorPlace) (i : Nat)
+    (item : ListItem) (rest : List ListItem) (innerItem : List Char) (separate : Bool) : IterEnv :=
+  let itemSepLen := if separate then byteLen f.separator else 0
+  let itemLastLine :=
+    if item.isMultiline then (rustLines innerItem).getLast?.getD [] else innerItem
+  let itemLastLineWidth := strWidth itemLastLine + itemSepLen
+  let itemLastLineWidth :=
+    if startsWith indentStr itemLastLine then itemLastLineWidth - strWidth indentStr
+    else itemLastLineWidth
+  ⟨i, i == 0, rest.isEmpty, innerItem, itemSepLen, itemLastLineWidth, indentStr, sepPlace⟩
+
+/-- lists.rs:313-520: everything a substantial item causes. -/
+def stepBody (f : ListFormatting) (rc : Rc) (e : IterEnv) (item : ListItem) (rest : List ListItem)
+    (st : State) (separate : Bool) : Option State :=
+  match tacticBlank f e item (render st.pieces) separate st.trailingSeparator
+      st.prevItemHadPostComment st.prevItemIsNestedImport st.lineLen with
+  | (p1, separate, trailingSeparator, lineLen) =>
+    match preCommentPieces f rc e item lineLen with
+    | none => none
+    | some (p2, lineLen, resetMax) =>
+      let itemMaxWidth := if resetMax then none else st.itemMaxWidth
+      let p3 := itemPieces f e separate
+      match horizontalPostPieces f rc item with
+      | none => none
+      | some p4 =>
+        let p5 := backSepPieces f e separate
+        let soFar := st.pieces ++ p1 ++ p2 ++ p3 ++ p4 ++ p5
+        match verticalPostPieces f rc e item (item :: rest) (render soFar) separate itemMaxWidth with
+        | none => none
+        | some (p6, itemMaxWidth) =>
+          let p7 := preserveNewlinePieces f e item
+          some
+            { pieces := soFar ++ p6 ++ p7
+              trailingSeparator := trailingSeparator
+              itemMaxWidth := if p7.isEmpty then itemMaxWidth else none
+              prevItemHadPostComment := item.postComment.isSome
+              prevItemIsNestedImport := containsStr [':', ':'] e.innerItem
+              lineLen := lineLen }
+
 /-- One iteration of the `while let` loop, lists.rs:286-521.  `rest` are the items after this one
 (`iter.peek().is_none()` is `rest.isEmpty`; `cloned_items.skip(i)` is `item :: rest`). -/
 def step (f : ListFormatting) (rc : Rc) (indentStr : List Char) (sepPlace : SeparatorPlace)
@@ -475,45 +532,9 @@ def step (f : ListFormatting) (rc : Rc) (indentStr : List Char) (sepPlace : Sepa
   match item.item with
   | none => none
   | some innerItem =>
-    let first := i == 0
-    let last := rest.isEmpty
-    let separate := match sepPlace with
-      | .front => !first
-      | .back => !last || st.trailingSeparator
-    let itemSepLen := if separate then byteLen f.separator else 0
-    let itemLastLine :=
-      if item.isMultiline then (rustLines innerItem).getLast?.getD [] else innerItem
-    let itemLastLineWidth := strWidth itemLastLine + itemSepLen
-    let itemLastLineWidth :=
-      if startsWith indentStr itemLastLine then itemLastLineWidth - strWidth indentStr
-      else itemLastLineWidth
+    let separate := separate0 sepPlace i rest.isEmpty st.trailingSeparator
     if !item.isSubstantial then some st
-    else
-      let e : IterEnv := ⟨i, first, last, innerItem, itemSepLen, itemLastLineWidth, indentStr, sepPlace⟩
-      let (p1, separate, trailingSeparator, lineLen) :=
-        tacticBlank f e item (render st.pieces) separate st.trailingSeparator
-          st.prevItemHadPostComment st.prevItemIsNestedImport st.lineLen
-      match preCommentPieces f rc e item lineLen with
-      | none => none
-      | some (p2, lineLen, resetMax) =>
-        let itemMaxWidth := if resetMax then none else st.itemMaxWidth
-        let p3 := itemPieces f e separate
-        match horizontalPostPieces f rc item with
-        | none => none
-        | some p4 =>
-          let p5 := backSepPieces f e separate
-          let soFar := st.pieces ++ p1 ++ p2 ++ p3 ++ p4 ++ p5
-          match verticalPostPieces f rc e item (item :: rest) (render soFar) separate itemMaxWidth with
-          | none => none
-          | some (p6, itemMaxWidth) =>
-            let p7 := preserveNewlinePieces f e item
-            some
-              { pieces := soFar ++ p6 ++ p7
-                trailingSeparator := trailingSeparator
-                itemMaxWidth := if p7.isEmpty then itemMaxWidth else none
-                prevItemHadPostComment := item.postComment.isSome
-                prevItemIsNestedImport := containsStr [':', ':'] innerItem
-                lineLen := lineLen }
+    else stepBody f rc (mkEnv f indentStr sepPlace i item rest innerItem separate) item rest st separate
 
 /-- The loop. -/
 def loop (f : ListFormatting) (rc : Rc) (indentStr : List Char) (sepPlace : SeparatorPlace) :
